@@ -14,7 +14,7 @@ typedef struct {
     char *out; size_t out_len, out_cap;
     int flushes;
     int errcb[256]; int n_errcb;
-    unsigned srq[256]; int n_srq;
+    unsigned srq[256]; unsigned srq_stb[256]; int n_srq;   /* srq_stb: the status byte register at the moment of the callback */
     int resets;
 } h_env_t;
 
